@@ -17,8 +17,98 @@ fn roundtrip(b: &RevocationBitmap) -> Result<(), String> {
   let svc = b.to_service(DIDUrl::parse("did:example:1#rev").unwrap()).map_err(|e| format!("to_service: {e}"))?;
   match RevocationBitmap::try_from(&svc) { Ok(b2) if &b2 == b => Ok(()), Ok(_) => Err("decoded to a different set".into()), Err(e) => Err(format!("own endpoint rejected: {e}")) }
 }
+/// C05, bounded exhaustive + structured: endpoints whose payload is junk at every layer (data-url prefix, base64, legacy
+/// double encoding, zlib stream, roaring serialisation) give an error or a bitmap whose accessors work - never a panic
+fn junk_endpoints_never_panic() -> Result<(), String> {
+  use std::io::Write;
+  fn svc(url: &str) -> Option<Service> {
+    let u = Url::parse(url).ok()?;
+    Service::builder(Object::new()).id(DIDUrl::parse("did:example:1#rev").unwrap()).type_(RevocationBitmap::TYPE).service_endpoint(ServiceEndpoint::One(u)).build().ok()
+  }
+  fn b64url(b: &[u8]) -> String { identity_core::convert::BaseEncoding::encode(b, identity_core::convert::Base::Base64Url) }
+  fn zlib(b: &[u8]) -> Vec<u8> { let mut e = flate2::write::ZlibEncoder::new(Vec::new(), flate2::Compression::default()); e.write_all(b).unwrap(); e.finish().unwrap() }
+  fn probe(what: String, url: String) -> Result<bool, String> {
+    let Some(s) = svc(&url) else { return Ok(false) };
+    catch_unwind(move || match RevocationBitmap::try_from(&s) {
+      Ok(b) => { let _ = (b.len(), b.is_empty(), b.is_revoked(0), b.is_revoked(u32::MAX), b.to_service(DIDUrl::parse("did:example:1#x").unwrap()).is_ok()); true }
+      Err(e) => { let _ = e.to_string(); false }
+    }).map_err(|_| format!("RevocationBitmap::try_from PANICS for {what}"))
+  }
+  const P: &str = "data:application/octet-stream;base64,";
+  let mut n = 0u32;
+  // 1. every string of up to 4 characters over a base64 / junk alphabet directly after the prefix
+  let alphabet = ['e', 'J', 'Z', 'U', 'A', '=', '-', '_', '+', '/', '%', '.'];
+  let mut cur: Vec<usize> = vec![];
+  loop {
+    let mut k = cur.len();
+    loop {
+      if k == 0 { cur = vec![0; cur.len() + 1]; break; }
+      k -= 1;
+      if cur[k] + 1 < alphabet.len() { cur[k] += 1; for j in k + 1..cur.len() { cur[j] = 0; } break; }
+    }
+    if cur.len() > 4 { break; }
+    let t: String = cur.iter().map(|&i| alphabet[i]).collect();
+    n += 1;
+    probe(format!("payload {t:?}"), format!("{P}{t}"))?;
+  }
+  // other prefixes / other URL kinds
+  for u in ["data:application/octet-stream;base64", "data:,", "data:text/plain;base64,eJw", "https://example.com/eJw", "data:application/octet-stream;base64,,", "did:example:1"] { probe(format!("url {u}"), u.to_owned())?; n += 1; }
+  // 2. every byte string of length <= 2 as (a) the zlib stream itself, (b) the content of a well-formed zlib stream
+  for len in 0..=2usize { for v in 0..(1u32 << (8 * len)) {
+    let bytes: Vec<u8> = (0..len).map(|i| (v >> (8 * i)) as u8).collect();
+    if len < 2 || v % 7 == 0 { probe(format!("zlib stream {bytes:?}"), format!("{P}{}", b64url(&bytes)))?; }
+    probe(format!("roaring bytes {bytes:?}"), format!("{P}{}", b64url(&zlib(&bytes))))?;
+    n += 1;
+  } }
+  // 3. crafted roaring headers: cookie x container count x pseudo-random body
+  let mut seed = 0x2545F491u32;
+  let mut rnd = move || { seed ^= seed << 13; seed ^= seed >> 17; seed ^= seed << 5; seed };
+  for cookie in [12346u32, 12347, 12345, 0, 0xFFFF_FFFF, 12347 | (3 << 16), 12347 | (0xFFFF << 16)] {
+    for size in [0u32, 1, 2, 4, 5, 0xFFFF, 0x1_0000, 0xFFFF_FFFF] {
+      for body_len in [0usize, 1, 3, 4, 7, 8, 12, 16, 24, 40, 8200] {
+        for _ in 0..3 {
+          let mut p = cookie.to_le_bytes().to_vec();
+          if cookie & 0xFFFF != 12347 { p.extend_from_slice(&size.to_le_bytes()); }
+          // half of the bodies start with a plausible description (key, cardinality-1) and offset
+          let mut body: Vec<u8> = (0..body_len).map(|_| rnd() as u8).collect();
+          if body_len >= 8 && rnd() % 2 == 0 { body[..8].copy_from_slice(&[0, 0, (rnd() % 3) as u8, 0, 16, 0, 0, 0]); }
+          p.extend_from_slice(&body);
+          n += 1;
+          probe(format!("roaring cookie {cookie:#x} size {size:#x} body {} bytes", body_len), format!("{P}{}", b64url(&zlib(&p))))?;
+        }
+      }
+    }
+  }
+  // 4. a genuine endpoint (array container + bitmap container) truncated at every length and with every single bit of the
+  //    roaring bytes flipped; the same at the zlib layer and at the base64 layer
+  let mut b = RevocationBitmap::new();
+  for i in [1u32, 5, 70000, 70001] { b.revoke(i); }
+  for i in 0..5000u32 { b.revoke(200_000 + i * 3); }
+  let endpoint = b.to_service(DIDUrl::parse("did:example:1#rev").unwrap()).map_err(|e| e.to_string())?;
+  let ServiceEndpoint::One(u) = endpoint.service_endpoint() else { return Err("endpoint shape".into()) };
+  let enc = u.as_str().strip_prefix(P).ok_or("prefix")?.to_owned();
+  let z = identity_core::convert::BaseEncoding::decode(&enc, identity_core::convert::Base::Base64Url).map_err(|e| e.to_string())?;
+  let raw = { use std::io::Read; let mut d = flate2::read::ZlibDecoder::new(&z[..]); let mut o = vec![]; d.read_to_end(&mut o).map_err(|e| e.to_string())?; o };
+  if !probe("genuine".into(), format!("{P}{enc}"))? { return Err("genuine endpoint refused".into()); }
+  let mut accepted_mutants = 0u32;
+  for cut in 0..raw.len().min(600) { probe(format!("roaring bytes cut at {cut}"), format!("{P}{}", b64url(&zlib(&raw[..cut]))))?; n += 1; }
+  for i in 0..raw.len().min(120) { for bit in 0..8 { let mut m = raw.clone(); m[i] ^= 1 << bit; n += 1; if probe(format!("roaring byte {i} bit {bit} flipped"), format!("{P}{}", b64url(&zlib(&m))))? { accepted_mutants += 1; } } }
+  for cut in 0..z.len().min(400) { probe(format!("zlib stream cut at {cut}"), format!("{P}{}", b64url(&z[..cut])))?; n += 1; }
+  for i in 0..z.len().min(200) { for bit in [0, 3, 7] { let mut m = z.clone(); m[i] ^= 1 << bit; n += 1; probe(format!("zlib byte {i} bit {bit} flipped"), format!("{P}{}", b64url(&m)))?; } }
+  for cut in 0..enc.len().min(300) { probe(format!("base64 text cut at {cut}"), format!("{P}{}", &enc[..cut]))?; n += 1; }
+  // legacy double encoding of each of the above text prefixes
+  for cut in (0..enc.len().min(300)).step_by(3) {
+    let legacy = identity_core::convert::BaseEncoding::encode(enc[..cut].as_bytes(), identity_core::convert::Base::Base64);
+    probe(format!("legacy encoding of text cut at {cut}"), format!("{P}{legacy}"))?; n += 1;
+  }
+  let _ = accepted_mutants;
+  if n < 90_000 { return Err(format!("only {n} inputs")); }
+  Ok(())
+}
+
 fn main() {
   std::panic::set_hook(Box::new(|_| {}));
+  w("rb_junk_endpoints_never_panic", junk_endpoints_never_panic);
   w("rb_roundtrip_small_sets", || { for n in 0..12u32 { let mut b = RevocationBitmap::new(); for i in 0..n { b.revoke(i * 7 + 1); } roundtrip(&b).map_err(|e| format!("{n} indices: {e}"))?; } Ok(()) });
   w("rb_roundtrip_larger_sets", || {
     for n in [16u32, 17, 40, 100, 1000, 30000] { let mut b = RevocationBitmap::new(); for i in 0..n { b.revoke(i.wrapping_mul(2654435761) % (if n > 10000 { 4_000_000_000 } else { 100000 })); } roundtrip(&b).map_err(|e| format!("{n} pseudo-random indices: {e}"))?; }
